@@ -7,7 +7,10 @@ import (
 	"bytes"
 	"context"
 	"crypto"
+	"crypto/ecdsa"
+	"crypto/ed25519"
 	"crypto/rand"
+	"crypto/rsa"
 	"crypto/x509"
 
 	"github.com/pion/dtls/v3/internal/ciphersuite"
@@ -284,6 +287,17 @@ func saveSessionAndFinish(state *dtlsstate.State12, cfg *dtlsconfig.HandshakeCon
 	return Flight6, nil, nil
 }
 
+func keyFitsCipherSuite(public crypto.PublicKey, suite ciphersuite.CipherSuite) bool {
+	switch public.(type) {
+	case ed25519.PublicKey, *ecdsa.PublicKey:
+		return suite.CertificateType() == clientcertificate.ECDSASign
+	case *rsa.PublicKey:
+		return suite.CertificateType() == clientcertificate.RSASign
+	default:
+		return true
+	}
+}
+
 //nolint:gocognit,cyclop,maintidx
 func flight4Generate(
 	_ dtlsflight.Conn,
@@ -404,6 +418,15 @@ func flight4Generate(
 		signer, ok := certificate.PrivateKey.(crypto.Signer)
 		if !ok {
 			return nil, &alert.Alert{Level: alert.Fatal, Description: alert.InternalError}, dtlserrors.ErrInvalidPrivateKey
+		}
+
+		// The suite was chosen against the default certificate. The one
+		// selected for this server name may hold another kind of key; a suite
+		// that promises ECDSA authentication cannot be served with an RSA key
+		// (RFC 5246 Section 7.4.2), or the other way round.
+		if !keyFitsCipherSuite(signer.Public(), state.CipherSuite) {
+			return nil, &alert.Alert{Level: alert.Fatal, Description: alert.HandshakeFailure},
+				dtlserrors.ErrNoAvailableCertificateCipherSuite
 		}
 
 		// Find compatible signature scheme
